@@ -153,6 +153,8 @@ def run(ctx):
             fx.assigns.index(rst[0]) > fx.assigns.index(inc[0])
         ctx.ob("A2", WB, "DownConverter", "count reset on master.ack | ~cyc, with priority (later statement)", ok2,
                "" if ok2 else f"reset under {B.show(Gr)} / order", rst[0].line)
+    from ..rules_stream import s_range
+    s_range(ctx, "A2", fx, "DownConverter", "count")
     ma = fx.find(domain="comb", target="master.ack")
     ok = len(ma) == 1 and ma[0].v == "done" and B.equivalent(ma[0].eff(), B.from_expr("master.stb & master.cyc & (slave.ack | skip)"))
     ctx.ob("A2", WB, "DownConverter", "master.ack = done under stb & cyc & (slave.ack | skip)", ok, "" if ok else f"{[(a.v, a.gtext()) for a in ma]}")
